@@ -9,6 +9,8 @@ package comet
 import (
 	"fmt"
 	"strings"
+
+	vos "github.com/wizenheimer/comet/internal/vrt/vos"
 )
 
 var vC17Faults = []struct {
@@ -144,9 +146,15 @@ func (s *vC17Sys) Apply(op vOp, hist []vOp, check bool) {
 		s.owner = -1
 	case "Close":
 		var err error
+		logStart := len(s.env.fs.Log)
 		s.env.do(func() { err = s.h[op.A].Close() })
 		if s.env.dead != "" {
 			break
+		}
+		if check {
+			if msg := vLockReleasedEarly(s.env.fs.Log[logStart:]); msg != "" {
+				s.c.Violation("lock-released-before-close-finished", "", s.cfgS, h(), msg)
+			}
 		}
 		if s.open[op.A] {
 			if err != nil {
@@ -191,6 +199,22 @@ func (s *vC17Sys) Apply(op vOp, hist []vOp, check bool) {
 	if check {
 		s.observe(h())
 	}
+}
+
+// vLockReleasedEarly: within the file-system operations of one Close, the LOCK must be
+// removed only after the handle's last write (its final flush): otherwise another open
+// can take the directory while the old handle is still writing segment files.
+func vLockReleasedEarly(log []vos.Op) string {
+	removed := -1
+	for i, op := range log {
+		if op.Kind == "remove" && strings.HasSuffix(op.Path, "/LOCK") && removed < 0 {
+			removed = i
+		}
+		if removed >= 0 && i > removed && (op.Kind == "create" || op.Kind == "write") && vSegRe.MatchString(op.Path) {
+			return fmt.Sprintf("LOCK was removed at operation %d of Close, but %s %s happened afterwards (operation %d): the directory was unowned while the handle was still writing", removed, op.Kind, op.Path, i)
+		}
+	}
+	return ""
 }
 
 // every public method on every closed handle must fail cleanly and change nothing
